@@ -613,7 +613,28 @@ theorem waiter_not_lost_run (m : Nat) (es : List Ev) : WInv (run (init m) es) :=
   | nil => exact h0
   | cons e r ih => exact ih _ (waiter_not_lost s e h0)
 
-/-! ### 7. non-vacuity -/
+/-! ### 7. waiters of ONE Locker under NoLoopTracking: the wake-up CAN be lost
+
+`waiter_not_lost` above is about waiters whose connection is told about every write of the key
+they track. For two WithContext callers of one Locker with NoLoopTracking the real code loses
+the wake-up on the schedule below (reproduced end-to-end with gates on the delkey calls, witness
+key `lock:lost-wakeup:noloop-sibling-failed-attempt`, known finding). -/
+
+/-- NOLOOP: at the end of the schedule every key is free, both waiters are parked, the gate
+channel is empty and the connection tracks nothing: nothing is pending that could wake them -/
+theorem noloop_sibling_lost_wakeup_witness :
+    let s := Sib.run { noloop := true } Sib.schedule
+    s.regs = [none, none, none] ∧ s.parked = 2 ∧ s.token = false ∧ s.tracked = [] ∧ s.live = 0 := by
+  decide
+
+/-- the same schedule without NOLOOP: the waiter's own deletion of key 0 is notified, a token is
+pending, and the next attempt takes the lock -/
+theorem sibling_control_without_noloop :
+    let s := Sib.run { noloop := false } Sib.schedule
+    s.token = true ∧ s.parked = 2 ∧ (Sib.settle s 4 8).live = 1 ∧ (Sib.settle s 4 8).parked = 1 := by
+  decide
+
+/-! ### 8. non-vacuity -/
 example : live (run (init 2) [.acq 5 0, .acq 5 1, .ret 5, .acq 5 2]) 5 = true := by decide
 example : live (run (init 2) [.acq 5 0, .acq 5 1, .ret 5, .acq 6 0, .skip 6 1, .skip 6 2, .park 1 0]) 6 = false := by decide
 
